@@ -215,6 +215,7 @@ pub fn scenario_body(sc: Scenario, obs: SharedObs) {
         ctl::settle();
     }
     obs.lock().unwrap().live_threads_end = ctl::live_threads();
+    obs.lock().unwrap().server_handles_end = ctl::open_server_handles();
 }
 
 /// Opens a fresh connection, sends a GET and checks that one 200 response arrives.
